@@ -34,8 +34,13 @@ def _ledger_models(tier, invariants, properties, epsilon_model=False):
     if epsilon_model:
         # (C05 family) weights queried as the first valuation after a quote move; quotes that keep only the side needed to
         # liquidate the position
-        ms.append(model("sf-weights", ["S5", "F5"], ["quote", "half", "trade", "weights", "value"], 4 if tier == "quick" else 5,
+        ms.append(model("sf-weights", ["S5", "F5"], ["quote", "half", "trade", "weights", "context", "value"], 4 if tier == "quick" else 5,
                         fees="paid", bids=(8, 12), spreads=(2,), dqs=(-1, 2), invariants=invariants, properties=properties))
+    # every PATH of three (thorough: four) operations - no VIEW, the history is part of the state - including discontinuations
+    # and one-sided quotes: histories that the specification identifies are all replayed
+    ms.append(model("sf-paths", ["S5", "F5"], BASE_OPS + ["lots", "disc", "half"], 3 if tier == "quick" else 4, fees="paid",
+                    bids=(8,), spreads=(0, 2), dqs=(-1, 2), lots=[{"S5": 1, "F5": -1}, {}],
+                    invariants=invariants, properties=properties, all_paths=True))
     if tier == "quick":
         ms.append(model("sf-paid", ["S5", "F5"], BASE_OPS + ["lots"], 5, fees="paid", dqs=(-1, 2),
                         lots=[{"S5": 1, "F5": -1}], invariants=invariants, properties=properties))
